@@ -74,11 +74,23 @@ def pool(rng):
     P.append(('SWTForward(db2,2)', lambda: SWTForward(J=2, wave='db2'), 'img8'))
     for b, s, J in [('near_sym_a', 'qshift_a', 2), ('near_sym_b', 'qshift_b', 3), ('antonini', 'qshift_06', 2), ('legall', 'qshift_d', 1)]:
         P.append(('DTCWTForward(%s,%s,%d)' % (b, s, J), lambda b=b, s=s, j=J: DTCWTForward(biort=b, qshift=s, J=j), 'img'))
+    # non-default options in every accepted form (lists, tuples, arrays; layouts; mode alias; per-axis wavelets; biases)
+    P.append(('DTCWTForward(J=3, skip_hps=[F,T,F], include_scale=(T,F,T))', lambda: DTCWTForward(J=3, skip_hps=[False, True, False], include_scale=(True, False, True)), 'img'))
+    P.append(('DTCWTForward(J=2, skip_hps=array[T,F], o_dim=1, ri_dim=-1)', lambda: DTCWTForward(J=2, skip_hps=np.array([True, False]), o_dim=1, ri_dim=-1), 'img'))
+    P.append(('DTCWTForward(J=2, include_scale=[F,T])', lambda: DTCWTForward(J=2, include_scale=[False, True]), 'img'))
+    P.append(('DWTForward((db2,db3) per axis, per, 2)', lambda: DWTForward(J=2, wave=_axis_pair('db2', 'db3'), mode='per'), 'img'))
+    P.append(('ScatLayer(near_sym_b_bp, magbias=0.5, colour)', lambda: ScatLayer(biort='near_sym_b_bp', magbias=0.5, combine_colour=True), 'img3'))
     P.append(('ScatLayer(near_sym_a)', lambda: ScatLayer(biort='near_sym_a'), 'img'))
     P.append(('ScatLayerj2', lambda: ScatLayerj2(), 'img8'))
     P.append(('roundtrip DWT(db2,symmetric)', lambda: _Round(DWTForward(J=2, wave='db2', mode='symmetric'), DWTInverse(wave='db2', mode='symmetric')), 'img'))
     P.append(('roundtrip DTCWT', lambda: _Round(DTCWTForward(J=2), DTCWTInverse()), 'img'))
     return P
+
+
+def _axis_pair(wc, wr):
+    import pywt
+    a, b = pywt.Wavelet(wc), pywt.Wavelet(wr)
+    return (np.array(a.dec_lo), np.array(a.dec_hi), np.array(b.dec_lo), np.array(b.dec_hi))
 
 
 class _Round:
@@ -90,6 +102,21 @@ class _Round:
 
     def double(self):
         self.f.double(); self.i.double(); return self
+
+
+def same_val(a, b):
+    """equality of two results of the SAME call up to the rounding PyTorch itself does not fix (kernel choice under
+    contention, memory layout of an equal-valued input): same None-ness, shape and dtype, values within 16 ulp of the scale"""
+    if a is None or b is None:
+        return a is None and b is None
+    if a.shape != b.shape or a.dtype != b.dtype:
+        return False
+    if torch.equal(a, b):
+        return True
+    if not (torch.isfinite(a).all() and torch.isfinite(b).all()):
+        return False
+    eps = torch.finfo(a.dtype).eps if a.dtype.is_floating_point else 0.0
+    return float((a.double() - b.double()).abs().max()) <= 16 * eps * max(1.0, float(b.abs().max()))
 
 
 def flat_out(o):
@@ -116,7 +143,7 @@ def live_flat(o):
 
 
 def make_input(rng, kind, shape_id, dtype):
-    shapes = {'img': [(1, 2, 16, 16), (2, 1, 12, 20), (1, 1, 9, 7), (1, 3, 8, 8)], 'img8': [(1, 1, 8, 8), (1, 2, 16, 8)], 'sig': [(1, 2, 16), (2, 1, 21), (1, 1, 9)]}[kind]
+    shapes = {'img': [(1, 2, 16, 16), (2, 1, 12, 20), (1, 1, 9, 7), (1, 3, 8, 8)], 'img8': [(1, 1, 8, 8), (1, 2, 16, 8)], 'img3': [(1, 3, 8, 8), (2, 3, 12, 10)], 'sig': [(1, 2, 16), (2, 1, 21), (1, 1, 9)]}[kind]
     sh = shapes[shape_id % len(shapes)]
     r = np.random.default_rng(1000 + shape_id)
     return torch.tensor(r.integers(-8, 9, sh).astype(np.float64)).to(dtype)
@@ -203,7 +230,7 @@ def oracle_contention(ck, n_threads, reps):
                         got = flat_out(mods[t](xs[t]))
                 except Exception as e:
                     bad.append('%s raises %s under contention' % (name, type(e).__name__)); barrier.abort(); return
-                ok = len(got) == len(want[t]) and all((a is None and b is None) or (a is not None and b is not None and a.shape == b.shape and torch.equal(a, b)) for a, b in zip(got, want[t]))
+                ok = len(got) == len(want[t]) and all(same_val(a, b) for a, b in zip(got, want[t]))
                 if not ok:
                     bad.append('%s on %s %s: thread %d, repetition %d: result differs from the same call made alone (%s instance)' % (name, tuple(xs[t].shape), dt, t, r, 'shared' if shared else 'own'))
         ths = [threading.Thread(target=work, args=(t,)) for t in range(n_threads)]
@@ -278,7 +305,7 @@ def oracle_history(ck, n_ops, n_threads):
                 with lock:
                     failures.append(('%s modified its input tensor' % name, (ci, si, str(dt))))
             want = ref(ci, si, dt)
-            ok = len(out) == len(want) and all((a is None and b is None) or (a is not None and b is not None and a.shape == b.shape and a.dtype == b.dtype and torch.equal(a, b)) for a, b in zip(out, want))
+            ok = len(out) == len(want) and all(same_val(a, b) for a, b in zip(out, want))
             ik = (ci, si, dname[dt])
             if ok and ik in iso:
                 ok2, why2 = close_to_iso(out, iso[ik])
@@ -288,13 +315,22 @@ def oracle_history(ck, n_ops, n_threads):
                         failures.append(('%s on %s %s: %s (the reference ran alone in a fresh process; this call ran after other calls)' % (name, tuple(x.shape), dt, why2), (ci, si, str(dt))))
             elif not ok:
                 with lock:
-                    failures.append(('%s on %s %s: result differs from the isolated reference call (history/thread dependence)' % (name, tuple(x.shape), dt), (ci, si, str(dt))))
+                    det = 'outputs %d vs %d' % (len(out), len(want))
+                    if len(out) == len(want):
+                        for k_, (a_, b_) in enumerate(zip(out, want)):
+                            if (a_ is None) != (b_ is None):
+                                det = 'output %d: None-ness differs' % k_; break
+                            if a_ is not None and (a_.shape != b_.shape or a_.dtype != b_.dtype):
+                                det = 'output %d: %s %s vs %s %s' % (k_, tuple(a_.shape), a_.dtype, tuple(b_.shape), b_.dtype); break
+                            if a_ is not None and not same_val(a_, b_):
+                                det = 'output %d: max |diff| %.3g (scale %.3g)' % (k_, float((a_.double() - b_.double()).abs().max()), float(b_.abs().max())); break
+                    failures.append(('%s on %s %s: result differs from the isolated reference call (history/thread dependence): %s' % (name, tuple(x.shape), dt, det), (ci, si, str(dt))))
             if ok:
                 with lock:
                     if len(retained) < 40:
                         live = mod(x) if not grad else None      # keep the module's own returned objects alive
                         if live is not None:
-                            retained.append(('%s on %s %s' % (name, tuple(x.shape), dt), live, want))
+                            retained.append(('%s on %s %s' % (name, tuple(x.shape), dt), live, flat_out(live)))      # snapshot of what was returned
     if n_threads <= 1:
         work(history, None)
     else:
